@@ -220,21 +220,6 @@ func (s *Sched) Failed() bool {
 	return len(s.Failures) > 0
 }
 
-func goid() uint64 {
-	var buf [40]byte
-	n := runtime.Stack(buf[:], false)
-	// "goroutine 123 ["
-	var id uint64
-	for i := 10; i < n; i++ {
-		c := buf[i]
-		if c < '0' || c > '9' {
-			break
-		}
-		id = id*10 + uint64(c-'0')
-	}
-	return id
-}
-
 func (s *Sched) logf(format string, a ...any) {
 	if s.cfg.TraceEvents {
 		s.Log = append(s.Log, fmt.Sprintf("%d ", s.Stats.Steps)+fmt.Sprintf(format, a...))
@@ -307,15 +292,10 @@ func (s *Sched) lookup() *Task {
 	s.mu.Lock()
 	t := s.byGoid[g]
 	if t == nil {
-		// a goroutine the scheduler has never seen (spawned by a dependency): adopt it
-		t = &Task{Name: "adopted", wake: make(chan struct{}, 1), goid: g}
-		t.ID = "x" + strconv.Itoa(s.Stats.Adopted)
+		// A goroutine the scheduler did not spawn (e.g. a process-level helper started at package
+		// initialisation, outside any bubble).  It is not part of the simulation: its operations
+		// fall through to the real primitives.  Counted, so a run can be flagged if it happens.
 		s.Stats.Adopted++
-		t.seq = len(s.tasks)
-		t.prio = int(s.Aux.Uint64() >> 1)
-		s.tasks = append(s.tasks, t)
-		s.byGoid[g] = t
-		s.Stats.Tasks++
 	}
 	s.mu.Unlock()
 	return t
@@ -335,14 +315,20 @@ var alwaysPred Pred = nil
 // Point is a sim point: the caller parks until the scheduler picks it and pred
 // (nil = always) holds.  Outside a run it returns false at once and the caller
 // must use the real primitive.
-func Point(kind Kind, obj any, pred Pred) bool {
+func Point(kind Kind, obj any, pred Pred) bool { return PointT(kind, obj, pred) != nil }
+
+// PointT is Point returning the calling task (nil outside a run).
+func PointT(kind Kind, obj any, pred Pred) *Task {
 	s := active.Load()
 	if s == nil {
-		return false
+		return nil
 	}
 	t := s.lookup()
+	if t == nil {
+		return nil
+	}
 	if t.exiting {
-		return true
+		return t
 	}
 	if s.abort.Load() {
 		t.exiting = true
@@ -357,7 +343,7 @@ func Point(kind Kind, obj any, pred Pred) bool {
 		t.exiting = true
 		runtime.Goexit()
 	}
-	return true
+	return t
 }
 
 // Yield is an explicit sim point.
@@ -462,6 +448,9 @@ func WaitQuiescent() {
 		return
 	}
 	t := s.lookup()
+	if t == nil {
+		return
+	}
 	t.idle = true
 	Point(KUser, nil, func(time.Time) (bool, time.Time) { return false, time.Time{} })
 	t.idle = false
@@ -498,6 +487,10 @@ func GoNamed(name string, fn func()) {
 		return
 	}
 	parent := s.lookup()
+	if parent == nil {
+		go fn()
+		return
+	}
 	if parent.exiting || s.abort.Load() {
 		return
 	}
